@@ -122,6 +122,10 @@ func runC14(w *fw.Worker) {
 		if len(aliases) == 0 {
 			return
 		}
+		if !isFile && !gen.FlattenedNamesDistinct(leaves) {
+			w.Count("skipped_ambiguous_names", 1)
+			return
+		}
 		// primary and alias names must all be distinct for the naming rule to be unambiguous
 		{
 			seen := map[string]bool{}
